@@ -357,8 +357,72 @@ func plan(cfgIdx int, img *image, rng *rand.Rand, budget int) []*job {
 	for i, j := range jobs {
 		j.skip = i%4 == 0
 		j.rebuild = i%8 == 3
+		clampVLen(img, j)
+	}
+	// one probe per image of what a huge vLen costs (run on its own, after the parallel batch)
+	if cfgIdx == 0 || cfgIdx == 2 {
+		t := img.txs[1]
+		fl := t.fieldNamed("e0.vLen")
+		jobs = append(jobs, &job{cfgIdx: cfgIdx, target: 1, class: "entry.vLen", kind: "vlen-huge",
+			patches: []patch{{-1, t.off + int64(fl.lo), beBytes(hugeVLen, 4)}}})
+	}
+	if img.cfg.compression != 0 {
+		for ti, t := range img.txs {
+			if t.entries[0].vLen > 0 {
+				fl := t.fieldNamed("e0.vLen")
+				jobs = append(jobs, &job{cfgIdx: cfgIdx, target: ti, class: "entry.vLen", kind: "vlen-longer-compressed",
+					patches: []patch{{-1, t.off + int64(fl.lo), beBytes(uint64(t.entries[0].vLen+1), 4)}}})
+				break
+			}
+		}
 	}
 	return jobs
+}
+
+const maxGenVLen = 1 << 22
+const hugeVLen = 1 << 30
+
+// clampVLen keeps the value lengths a job can make ReadValue/ExportTx see below 4 MiB: the store
+// allocates vLen bytes before validating anything (probed separately by the vlen-huge job), and
+// thousands of multi-GiB allocations would only slow the run down. ReadValue is reached only when
+// ReadTx succeeded, i.e. when the layout is the committed one, so the committed vLen positions are
+// the ones that matter.
+func clampVLen(img *image, j *job) {
+	if j.target < 0 {
+		return
+	}
+	t := img.txs[j.target]
+	rec := clone(t.rec)
+	for _, p := range j.patches {
+		if p.vlog >= 0 {
+			continue
+		}
+		for k, b := range p.data {
+			o := p.off + int64(k) - t.off
+			if o >= 0 && o < int64(len(rec)) {
+				rec[o] = b
+			}
+		}
+	}
+	for _, f := range t.fields {
+		if f.class != "entry.vLen" {
+			continue
+		}
+		v := beVal(rec[f.lo:f.hi])
+		if v >= maxGenVLen {
+			v &= maxGenVLen - 1
+			j.patches = append(j.patches, patch{-1, t.off + int64(f.lo), beBytes(v, 4)})
+		}
+		// compressed value logs: a vLen above the stored length costs seconds of multi-GiB
+		// allocations per read (probed once by the vlen-longer-compressed job)
+		if orig := beVal(t.rec[f.lo:f.hi]); img.cfg.compression != 0 && v > orig {
+			nv := uint64(0)
+			if orig > 0 {
+				nv = v % orig
+			}
+			j.patches = append(j.patches, patch{-1, t.off + int64(f.lo), beBytes(nv, 4)})
+		}
+	}
 }
 
 // compressed value logs: the data region of the chunk files is altered physically (entries are
